@@ -2,7 +2,7 @@
     them stepped, with atmosphere blocks), and concrete witnesses of the two recorded defects. *)
 From Coq Require Import List Bool Arith ZArith QArith Qcanon Lia.
 From PTBase Require Import Exn.
-From P Require Import Rectgeo QcFacts GeoFacts ListFacts Forward Walk Track Origin Spacings Mapping Surface Main Regen Final Heading Trim FinalTrim.
+From P Require Import Rectgeo QcFacts GeoFacts ListFacts Forward Walk Track Origin Spacings Mapping Surface Main Regen Final Heading Trim FinalTrim FileSim FileGrid FinalFile.
 Import ListNotations.
 Open Scope Qc_scope.
 
@@ -172,4 +172,49 @@ Proof.
   - split; intros X; discriminate X.
   - exists r. split; [exact E|]. rewrite Cz, O, A. split; [|split; reflexivity].
     cbn [w4 gdz skipn]. f_equal.
+Qed.
+
+(** the hypotheses of [rectgeo_after_data_file] are satisfiable: a flat 2 x 2 x 2 geometry whose numbers the file
+    keeps apart (here even exactly) *)
+Definition w5 : rgeo := mkRgeo (q 100) (q (-50)) (q 10) 1 0 [q 1; q 2] [q 3; q 1] [q 1; q 2] 2 0 0 (q 10) (fun _ _ => q 10).
+Lemma w5_class : in_class cid_eqb w5 idn idn (q 1000) 0.
+Proof.
+  constructor.
+  - exact cid_eqb_eq.
+  - constructor; try (cbn; lia); try (repeat constructor; qc_dec); try qc_dec.
+    intros i j Hi Hj. cbn in Hi, Hj. destruct i as [|[|i]]; destruct j as [|[|j]]; try lia; qc_dec.
+  - left. cbn. lia.
+  - apply Qc_is_canon. vm_compute. reflexivity.
+  - intros a b _ _ E. exact E.
+  - intros a b _ _ E. exact E.
+  - intros k i j [Hk [Hi [Hj Hh]]]. cbn in Hk, Hi, Hj.
+    destruct k as [|[|k]]; try lia; destruct i as [|[|i]]; try lia; destruct j as [|[|j]]; try lia; qc_dec.
+  - intros X. exfalso. apply X. reflexivity.
+  - intros i j _ _. apply nosnap_nonpos. apply Qcle_refl.
+  - exists 0%nat, 0%nat. split; [cbn; lia|]. split; [cbn; lia|]. qc_dec.
+Qed.
+Notation w5_grid := (grid_of w5 idn (cn_canonical cid_eqb w5 idn)).
+Lemma w5_blocks : blocks w5_grid = map (fun c => mk_block idn (cellof w5 c))
+  [Cell 1 0 0; Cell 1 1 0; Cell 1 0 1; Cell 1 1 1; Cell 2 0 0; Cell 2 1 0; Cell 2 0 1; Cell 2 1 1].
+Proof. reflexivity. Qed.
+Lemma w5_vok : forall b, In b (blocks w5_grid) -> vol_ok (Some (q 1000)) (rnd 5 (bvol b)) = vol_ok (Some (q 1000)) (bvol b).
+Proof.
+  intros b Hb. rewrite w5_blocks in Hb. cbn [map In] in Hb.
+  repeat (destruct Hb as [<-|Hb]; [vm_compute; reflexivity|]). destruct Hb.
+Qed.
+Lemma w5_mono : forall b b' z z', In b (blocks w5_grid) -> In b' (blocks w5_grid) -> elev cid None b = Some z -> elev cid None b' = Some z' ->
+  qlt (rnd 4 z) (rnd 4 z') = qlt z z'.
+Proof.
+  intros b b' z z' Hb Hb' E E'. rewrite w5_blocks in Hb, Hb'. cbn [map In] in Hb, Hb'.
+  repeat (destruct Hb as [<-|Hb]; [repeat (destruct Hb' as [<-|Hb']; [cbn in E, E'; inversion E; inversion E'; vm_compute; reflexivity|]); destruct Hb'|]).
+  destruct Hb.
+Qed.
+Example w5_after_file : exists r,
+  rectgeo cid cid_eqb heading_exact true true (file_grid cid w5_grid) None (q 1000) false 0 2 idn = Ok r /\
+  r_dx r = [q 1; q 2] /\ r_dy r = [q 3; q 1] /\ r_dz r = [q 1; q 2].
+Proof.
+  destruct (rectgeo_after_data_file_lemma cid cid_eqb w5 idn idn (q 1000) 0 w5_class ltac:(cbn; lia) ltac:(cbn; lia) _
+              (cn_canonical_ok cid_eqb w5 idn cid_eqb_eq) w5_vok w5_mono heading_exact) as [r [E [A [B C]]]].
+  exists r. split; [exact E|]. rewrite A, B, C. repeat split; apply file_spacing_exact_lemma; intros d Hd; cbn in Hd;
+    repeat (destruct Hd as [<-|Hd]; [apply Qc_is_canon; vm_compute; reflexivity|]); destruct Hd.
 Qed.
